@@ -479,19 +479,21 @@ void h_bintTimes_unit_s_m1(void) BODY_bintTimes_unit(0, -1)
 }
 ENTRIES_K(bintShift)
 /* lowest n bits of a non-negative number, every n >= 0 (fiBIntShiftRem passes the user's count) */
-#define BODY_bintShiftRem(K) \
+#define BODY_bintShiftRem(K, NMIN) \
 { \
 	INPUT(BIntS, sent); g_sent = sent; \
 	IN_BINT_K(b, K); INPUT(int, n); \
 	CANON3(b); \
-	ASSUME(BS_V(b) >= 0 && n >= 0 && n <= 126); \
+	ASSUME(BS_V(b) >= 0 && n >= (NMIN) && n <= 126); \
 	bs_v vb = BS_V(b); \
 	BInt r = bintShiftRem(b, n); \
 	CHECK("bintShiftRem: the lowest n bits, canonical", POST_bintShiftRem(vb, n, r)); \
 	CHECK("bintShiftRem: no digit stored beyond the capacity", SLACK_OK(r) && SLACK_OK(b)); \
 	VREACH(); \
 }
-ENTRIES_K(bintShiftRem)
+void h_bintShiftRem_i(void)  BODY_bintShiftRem(1, 1)
+void h_bintShiftRem_s(void)  BODY_bintShiftRem(0, 1)
+void h_bintShiftRem_s0(void) BODY_bintShiftRem(0, 0)
 
 /* ============================== from a digit vector ===================================================== */
 void h_bintFrPlacev(void)
